@@ -7,6 +7,7 @@ Decided (DESIGN.md C12):
  (c) replication entry messages build and rehydrate attribute state only through
      to_db_valueset_v2 / from_db_valueset_v2, so (b) covers the wire;
  (d) the DbEntryVers / DbBackup variant written is also read.
+ K6-derived-filter-accumulates  ValueSetOauth2Session.rs_filter (and every local that becomes it) is only written with `|=`; plain assignment only resets to u128::MIN.
 Not decided: field-level equality, serde behaviour.
 """
 import re
@@ -297,6 +298,12 @@ def derived_lookup_state_accumulates(ctx):
             else:
                 r = unwrap(x["r"])
                 ok = r.get("e") == "path" and r.get("res", {}).get("def", "").endswith("<impl u128>::MIN") or (r.get("e") == "lit" and str(r.get("v")) == "0")
+                if not ok and r.get("e") == "bin" and r.get("op") in ("|", "BitOr"):
+                    # `x = x | m` is the same accumulation spelled out
+                    same = [o for o in (unwrap(r.get("l")), unwrap(r.get("r"))) if isinstance(o, dict) and ex_s(o) == ex_s(l)]
+                    if same:
+                        ok = True
+                        n_acc += 1
             if ok and x["e"] == "assignop":
                 n_acc += 1
             ctx.check(ok, "K6-derived-filter-accumulates", fn["fn"], f"rs_filter-write:{x['e']}{x.get('op') or ''}",
